@@ -25,6 +25,13 @@ class Any:
         if endswith is not None:
             self.regexp += escape(endswith)
 
+        # a value is "like" this placeholder if the WHOLE value has that
+        # shape: it starts with / ends with / contains the given bytes (the
+        # unanchored expression is what is pasted into the regexp of the
+        # packet, at the position of the field)
+        self.whole_value_regexp = compile(
+            b"(?s)\\A(?:" + self.regexp + b")\\Z"
+        )
         self.regexp = compile(self.regexp)
         self.__eq__ = self.eq_for_regexp
         self.__ne__ = self.ne_for_regexp
@@ -48,10 +55,10 @@ class Any:
         return False
 
     def eq_for_regexp(self, other):
-        return bool(self.regexp.search(other))
+        return bool(self.whole_value_regexp.match(other))
 
     def ne_for_regexp(self, other):
-        return not bool(self.regexp.search(other))
+        return not bool(self.whole_value_regexp.match(other))
 
 
 def anything_like(pkt_class):
